@@ -92,6 +92,7 @@ class MObj:
         self.batch = False
         self.trigger = False
         self.trig_deferred = False
+        self.trig_outer = 0             # callbacks in progress that were called on behalf of param.trigger
         self.queue = []                 # [(watcher, MEvent, qualifies)]
         self.event_params = set(event_params)
         self.ctx = []                   # open contexts (LIFO)
@@ -108,6 +109,7 @@ class DispatchModel:
         self.ambiguous = None           # reason string once the program leaves the specified zone
         self.depth = 0                  # callback nesting depth
         self.inflight = []              # stack of sets of (oid, name) being delivered
+        self.started = []               # parallel stack: ids of the watchers already called (or skipped) by that delivery
         self.event_hold = set()         # objects inside an update() naming an Event parameter
         self.exec_id = 0                # id of the callback execution in progress (0 = top level)
         self.exec_counter = 0
@@ -134,7 +136,9 @@ class DispatchModel:
 
     def unwatch(self, w):
         o = self.objs[w.obj]
-        if self.depth and any((w.obj, p) in s for s in self.inflight for p in w.params):
+        # a watcher that was already called for the event in flight (typically one removing itself) leaves nothing open:
+        # every other watcher is still owed its call
+        if self.depth and any((w.obj, p) in s and id(w) not in st for s, st in zip(self.inflight, self.started) for p in w.params):
             self.ambiguous = self.ambiguous or 'watcher removed while an event for its parameter is in flight'
         if any(t[0] is w or (t[0].wid == w.wid and t[0].obj == w.obj) for t in o.queue):
             self.ambiguous = self.ambiguous or 'watcher removed while it holds a deferred event'
@@ -153,6 +157,10 @@ class DispatchModel:
         o.values[name] = value
         ev = MEvent('value', name, old, value, o.trigger)
         ev.tdef = o.trigger and o.trig_deferred
+        if o.trig_outer and not o.trigger and o.batch:
+            # an ordinary assignment made by a callback of param.trigger and deferred: it is ordinary (filtered as such), the
+            # type it is reported with when the trigger's own flush delivers it is left open
+            ev.type_dc = True
         self._dispatch(o, ev, sort=True)
         if name in o.event_params and oid not in self.event_hold:
             o.values[name] = False       # Event parameters reset themselves, silently
@@ -168,8 +176,10 @@ class DispatchModel:
         if sort:
             ws = sorted(ws, key=lambda w: w.precedence)
         self.inflight.append({(o.oid, ev.name)})
+        self.started.append(set())
         try:
             for w in ws:
+                self.started[-1].add(id(w))
                 q = True
                 if not ev.triggered and w.onlychanged:
                     e3 = eq3(ev.old, ev.new)
@@ -186,12 +196,18 @@ class DispatchModel:
                     self._execute(o, w, [ev], set())
         finally:
             self.inflight.pop()
+            self.started.pop()
         if not o.batch:
             self.flush(o)
 
     def _execute(self, o, w, events, optional):
         saved = o.batch
         o.batch = bool(w.queued) or o.batch
+        # what the callback itself assigns is an ordinary assignment, also when it runs on behalf of param.trigger
+        saved_trig = (o.trigger, o.trig_deferred)
+        if o.trigger:
+            o.trig_outer += 1
+        o.trigger, o.trig_deferred = False, False
         self.depth += 1
         saved_id = self.exec_id
         self.exec_counter += 1
@@ -202,6 +218,9 @@ class DispatchModel:
             self.exec_id = saved_id
             self.depth -= 1
             o.batch = saved
+            o.trigger, o.trig_deferred = saved_trig
+            if saved_trig[0]:
+                o.trig_outer -= 1
             self.host.on_exit(w)
 
     def flush(self, o):
@@ -231,8 +250,10 @@ class DispatchModel:
             assigned = {k[0] for k in last}
             names_inflight = {(o.oid, n) for n in assigned}
             self.inflight.append(names_inflight)
+            self.started.append(set())
             try:
                 for w in sorted(order, key=lambda w: w.precedence):
+                    self.started[-1].add(id(w))
                     qualifying = per_w[id(w)][1]
                     evs = []
                     for n in w.params:               # events are reported in the watcher's parameter order
@@ -244,7 +265,7 @@ class DispatchModel:
                             ev.new_dc = n in disc
                             qevs = [e for ww, e, q, _ in queue if ww is w and e.name == n and q]
                             # a mixture of triggered and assigned events for one parameter: the reported type is open
-                            ev.type_dc = len({e.triggered for e in qevs} | {src.triggered}) > 1
+                            ev.type_dc = len({e.triggered for e in qevs} | {src.triggered}) > 1 or src.type_dc or any(e.type_dc for e in qevs)
                             # the last assignment did not qualify for this watcher (equal value): reporting the last
                             # qualifying object instead of the equal final one is acceptable
                             if qevs[-1] is not src and eq3(qevs[-1].new, src.new) is True:
@@ -255,6 +276,7 @@ class DispatchModel:
                     self._execute(o, w, evs, optional)
             finally:
                 self.inflight.pop()
+                self.started.pop()
 
     # -- batching scopes ---------------------------------------------------------------------
     def update(self, oid, items, fail_at=None):
